@@ -7,7 +7,27 @@ use ldk_verif_harness::common::*;
 use ldk_verif_harness::sim::*;
 use std::collections::BTreeMap;
 
-fn scenario(rng: &mut Rng, steps: usize, async_persist: bool, with_disc: bool, with_fee: bool) -> (Net, Vec<String>) {
+/// C01: what the REAL send-side admission check evaluates right now, per node (hook `channel_send_check_inputs`) and the limits
+/// `list_channels` reports; recorded in the trace as an event so that the op lines `stats` / `lim` compare them with the channel
+/// model's `Node.statsValueToSelf` / `Node.statsHtlcs` / `Node.availableBalances` at exactly this point of the history.
+fn sample_stats(net: &mut Net, c: usize) {
+	let cid = net.chans[c].2;
+	for i in 0..2 {
+		let peer = net.ids[1 - i];
+		let r = lightning::ln::verif_hooks::channel_send_check_inputs(net.nodes[i].node, &peer, &cid);
+		let d = net.nodes[i].node.list_channels().into_iter().find(|d| d.channel_id == cid);
+		if let (Some((v, mut hs, hold, cons, lim, maxd, _fr)), Some(d)) = (r, d) {
+			hs.sort();
+			let h: Vec<String> = hs.iter().map(|(o, a)| format!("{}{}", if *o { "o" } else { "i" }, a)).collect();
+			let text = format!("STATS {} {} {} | {} {} {} {} | {} {}", v, if h.is_empty() { "-".to_string() } else { h.join(",") }, hold,
+				d.channel_value_satoshis, lim.map(|x| x.to_string()).unwrap_or("-".into()), maxd, cons.iter().map(|x| x.to_string()).collect::<Vec<_>>().join(" "),
+				d.next_outbound_htlc_limit_msat, d.next_outbound_htlc_minimum_msat);
+			net.trace.push(Obs::Event { node: i, text });
+		}
+	}
+}
+
+fn scenario(rng: &mut Rng, steps: usize, async_persist: bool, with_disc: bool, with_fee: bool, tiny_push: bool) -> (Net, Vec<String>) {
 	let mut viol: Vec<String> = vec![];
 	let mut at_limit: Vec<(usize, &'static str, u64, bool)> = vec![]; // (payment, which bound, amount, raced: the peer had / later originated HTLCs the sender could not know when it read the limit)
 	let mut user_failed: Vec<usize> = vec![];
@@ -26,9 +46,10 @@ fn scenario(rng: &mut Rng, steps: usize, async_persist: bool, with_disc: bool, w
 	};
 	let mut net = Net::new(2, vec![cfg0, cfg1]);
 	let value = *rng.pick(&[100_000u64, 1_000_000, 5_000_000]);
-	let push = rng.below(value * 1000 / 2);
+	// `tiny_push` (short close scenarios of C01): the fundee starts with 0..700 sat, around the closing dust limit
+	let push = if tiny_push { rng.below(700_000) } else { rng.below(value * 1000 / 2) };
 	let c = net.open(0, 1, value, push);
-	net.sample_balances(c);
+	net.sample_balances(c); sample_stats(&mut net, c);
 	if async_persist { for i in 0..2 { if rng.chance(1, 2) { net.set_mode(i, true); } } }
 	for _ in 0..steps {
 		let linked = net.connected.contains(&(0, 1));
@@ -39,9 +60,9 @@ fn scenario(rng: &mut Rng, steps: usize, async_persist: bool, with_disc: bool, w
 			net.disconnect(0, 1); net.trace.push(Obs::Event { node: 0, text: "DISCONNECT".into() });
 			net.reconnect(0, 1); net.trace.push(Obs::Event { node: 0, text: "RECONNECT".into() });
 			for _ in 0..6 { if let Some((i, j)) = net.any_queued() { net.deliver(i, j); } }
-			net.sample_balances(c); continue;
+			net.sample_balances(c); sample_stats(&mut net, c); continue;
 		}
-		if with_disc && rng.chance(1, 14) { if linked { net.disconnect(0, 1); net.trace.push(Obs::Event { node: 0, text: "DISCONNECT".into() }); } else { net.reconnect(0, 1); net.trace.push(Obs::Event { node: 0, text: "RECONNECT".into() }); } net.sample_balances(c); continue; }
+		if with_disc && rng.chance(1, 14) { if linked { net.disconnect(0, 1); net.trace.push(Obs::Event { node: 0, text: "DISCONNECT".into() }); } else { net.reconnect(0, 1); net.trace.push(Obs::Event { node: 0, text: "RECONNECT".into() }); } net.sample_balances(c); sample_stats(&mut net, c); continue; }
 		// (only at a quiet moment: timer ticks while a response is outstanding would trip the peer-unresponsive disconnect timer)
 		if with_fee && connected && rng.chance(1, 8) && (0..2).all(|i| net.pending_updates(i, c).is_empty()) && { net.settle(6); net.any_queued().is_none() && (0..2).all(|i| net.pending_updates(i, c).is_empty()) } {
 			// the funder's fee estimator moves; timer_tick_occurred proposes an update_fee when it can afford it
@@ -63,7 +84,7 @@ fn scenario(rng: &mut Rng, steps: usize, async_persist: bool, with_disc: bool, w
 					net.process_events(1);
 				}
 			}
-			net.sample_balances(c); continue;
+			net.sample_balances(c); sample_stats(&mut net, c); continue;
 		}
 		match rng.below(16) {
 			0 | 1 | 2 if connected => {
@@ -132,7 +153,7 @@ fn scenario(rng: &mut Rng, steps: usize, async_persist: bool, with_disc: bool, w
 			0 | 1 | 2 => {},
 			_ => { let i = rng.below(2) as usize; let p = net.pending_updates(i, c); if !p.is_empty() { let id = *rng.pick(&p); net.complete(i, c, id); } },
 		}
-		net.sample_balances(c);
+		net.sample_balances(c); sample_stats(&mut net, c);
 	}
 	// drain: reconnect, complete everything, deliver everything
 	if !net.connected.contains(&(0, 1)) { net.reconnect(0, 1); net.trace.push(Obs::Event { node: 0, text: "RECONNECT".into() }); }
@@ -143,7 +164,7 @@ fn scenario(rng: &mut Rng, steps: usize, async_persist: bool, with_disc: bool, w
 		for p in 0..net.pays.len() { let to = net.pays[p].to; let h = net.pays[p].hash; if net.claimable[to].iter().any(|c| c.0 == h) { net.claimable[to].retain(|c| c.0 != h); net.claim(p); } }
 		if net.any_queued().is_none() && (0..2).all(|i| net.pending_updates(i, c).is_empty()) { net.settle(4); if net.any_queued().is_none() { break; } }
 	}
-	net.sample_balances(c);
+	net.sample_balances(c); sample_stats(&mut net, c);
 	// everything held behind a monitor update is released once the update completes: after the drain (all updates completed, all
 	// messages delivered, everything claimable claimed) every payment has a terminal event at its sender
 	if net.closed.is_empty() && !net.trace.iter().any(|o| matches!(o, Obs::ProtoError { .. })) {
@@ -403,6 +424,52 @@ fn probe_jump_over_held(extra_held: usize) -> Option<(u64, Option<String>)> {
 	Some((held, out.map(|m| format!("preimage update ahead of {} held monitor updates (1 revoke_and_ack update behind an unhandled PaymentSent + {} later updates): {}", held, extra_held, m))))
 }
 
+/// C09 (seeded C09-r4 family): a ShutdownScript monitor update (generated only with `commit_upfront_shutdown_pubkey = false`) must
+/// queue behind held (RAA-blocked) monitor updates. Node 1 holds a revoke_and_ack update behind an unhandled PaymentSent event
+/// (+ `extra` later updates); then a cooperative close starts — `local`: node 1 calls close_channel itself (get_shutdown), else node 0
+/// does and node 1 handles the peer's shutdown (FundedChannel::shutdown). chain::Watch must still see gap-free increasing ids, nothing panics.
+fn probe_shutdown_while_held(local: bool, extra: usize, in_flight: bool) -> Option<(u64, Option<String>)> {
+	fn drain(net: &mut Net, skip_events_of: Option<usize>) {
+		for _ in 0..30 {
+			let mut moved = false;
+			while let Some((i, j)) = net.any_queued() { net.deliver(i, j); moved = true; }
+			for i in 0..2 {
+				if net.nodes[i].node.needs_pending_htlc_processing() { net.forward(i); moved = true; }
+				if Some(i) != skip_events_of { let b = net.trace.len(); net.process_events(i); if net.trace.len() != b { moved = true; } }
+			}
+			if !moved { break; }
+		}
+	}
+	let mut cfg = lightning::ln::functional_test_utils::test_default_channel_config();
+	cfg.channel_handshake_config.commit_upfront_shutdown_pubkey = false;
+	let mut net = Net::new(2, vec![Some(cfg.clone()), Some(cfg)]);
+	let c = net.open(0, 1, 1_000_000, 400_000_000);
+	let p2 = net.send(&[1, 0], &[c], 4_000_000, 80).ok()?; drain(&mut net, None);
+	net.claim(p2); // node 0 fulfils; node 1 leaves its PaymentSent event unhandled: its next revoke_and_ack update is held
+	drain(&mut net, Some(1));
+	for _ in 0..extra { net.send(&[0, 1], &[c], 3_000_000, 80).ok()?; drain(&mut net, Some(1)); }
+	let (cp, cid) = (net.ids[0], net.chans[c].2);
+	let held = lightning::ln::verif_hooks::channel_restart_numbers(net.nodes[1].node, &cp, &cid).map(|n| n[5]).unwrap_or(0);
+	if in_flight { net.set_mode(1, true); }
+	let r = if local { net.nodes[1].node.close_channel(&cid, &net.ids[0]) } else { net.nodes[0].node.close_channel(&cid, &net.ids[1]) };
+	// get_shutdown refuses while a monitor update is outstanding or HTLCs are pending: that combination is not reachable (counted, not a failure)
+	if r.is_err() { std::mem::forget(net); return Some((u64::MAX, None)); }
+	net.pump(0); net.pump(1);
+	drain(&mut net, Some(1));
+	net.set_mode(1, false);
+	for _ in 0..6 { for id in net.pending_updates(1, c) { net.complete(1, c, id); } drain(&mut net, Some(1)); }
+	net.process_events(1); drain(&mut net, None);
+	for _ in 0..6 { for i in 0..2 { for id in net.pending_updates(i, c) { net.complete(i, c, id); } } drain(&mut net, None); }
+	let mut out = None;
+	let mut last: BTreeMap<usize, u64> = BTreeMap::new();
+	let mut saw_script = false;
+	for o in &net.trace { if let Obs::Update { node, id, kinds, .. } = o { if kinds.iter().any(|k| *k == "ShutdownScript") { saw_script = true; } if let Some(prev) = last.get(node) { if *id != prev + 1 && out.is_none() { out = Some(format!("update ids handed to chain::Watch are not gap-free / increasing at node {}: {} after {}", node, id, prev)); } } last.insert(*node, *id); } }
+	if out.is_none() && !saw_script { out = Some("no ShutdownScript monitor update was generated (set-up no longer reaches the case)".into()); }
+	if out.is_none() { if let Some(Obs::ProtoError { node, text }) = net.trace.iter().find(|o| matches!(o, Obs::ProtoError { .. })) { out = Some(format!("protocol error at node {}: {}", node, text)); } }
+	std::mem::forget(net);
+	Some((held, out.map(|m| format!("ShutdownScript update with {} held monitor updates ({} shutdown, {} extra updates, persister {}): {}", held, if local { "local" } else { "peer-initiated" }, extra, if in_flight { "InProgress" } else { "Completed" }, m))))
+}
+
 /// C09: everything held behind a monitor update is released when the updates complete — also when a SECOND update is
 /// generated on the channel while the first is still in flight. Node 0 learns through node 1's final revoke_and_ack that its
 /// payment p2 failed while that RAA's monitor update is InProgress (the failure is held); before it completes, node 0
@@ -565,6 +632,238 @@ fn probe_open_orders() -> Vec<String> {
 	out
 }
 
+/// C09, channel-side gate model (`Gate` of Model/MonGate.lean, decisions translated by tools/gen_mongate.py): random
+/// schedules on two real nodes with async persistence, out-of-order completion, a node that leaves its events unhandled for a
+/// while (RAA-blocked monitor updates), claims / fail-backs while paused and reconnects while in flight. Every
+/// ChannelMonitorUpdate the trace shows becomes ONE model op chosen from its step kinds; after every harness action the real
+/// channel's gate (hook `channel_monitor_gate_dump`: MonitorUpdateInProgress, monitor_pending_* flags and vector lengths,
+/// latest_monitor_update_id, blocked ids) and what left the node (ids handed to chain::Watch, raa / cs / channel_ready in
+/// order) are compared with the model's. The held-vector inputs of a revoke_and_ack op are derived independently from the
+/// HTLC lists before / after (list_channels), not from the monitor_pending_* fields.
+fn gate_scenario(rng: &mut Rng, sc: usize, steps: usize, rec: &mut Rec) {
+	use lightning::ln::channel_state::{InboundHTLCStateDetails as I, OutboundHTLCStateDetails as O};
+	let mut net = Net::new(2, vec![None, None]);
+	let c = net.open(0, 1, 1_000_000, 400_000_000);
+	let key = |x: usize| format!("g{}n{}", sc, x);
+	let dump = |net: &Net, x: usize| lightning::ln::verif_hooks::channel_monitor_gate_dump(net.nodes[x].node, &net.ids[1 - x], &net.chans[c].2);
+	let field = |d: &str, k: &str| -> String { d.split_whitespace().find_map(|w| w.strip_prefix(&format!("{}=", k)).map(|v| v.to_string())).unwrap_or_default() };
+	let blocked_of = |d: &str| -> Vec<(u64, String)> { let b = field(d, "blocked"); if b == "-" || b.is_empty() { vec![] } else { b.split(';').filter_map(|e| { let mut it = e.splitn(2, ':'); Some((it.next()?.parse().ok()?, it.next().unwrap_or("").to_string())) }).collect() } };
+	let htlcs = |net: &Net, x: usize| -> (Vec<(u64, u8)>, Vec<(u64, u8)>) {
+		let ch = net.nodes[x].node.list_channels();
+		match ch.get(0) { None => (vec![], vec![]), Some(d) => (
+			d.pending_outbound_htlcs.iter().filter_map(|h| Some((h.htlc_id?, match h.state { Some(O::AwaitingRemoteRevokeToRemoveSuccess) => 1u8, Some(O::AwaitingRemoteRevokeToRemoveFailure) => 2, _ => 0 }))).collect(),
+			d.pending_inbound_htlcs.iter().map(|h| (h.htlc_id, match h.state { Some(I::AwaitingRemoteRevokeToAdd) => 1u8, Some(I::Committed) => 2, _ => 0 })).collect()) }
+	};
+	for x in 0..2 { let d = dump(&net, x).unwrap_or_default(); rec.directive(&format!("ginit {} {}", key(x), field(&d, "latest"))); }
+	let mut pos = net.trace.len();
+	let mut dead = false;
+	let mut skip_events: Option<usize> = None;
+	let mut before: Vec<(String, (Vec<(u64, u8)>, Vec<(u64, u8)>))> = (0..2).map(|x| (dump(&net, x).unwrap_or_default(), htlcs(&net, x))).collect();
+	for step in 0..steps + 40 {
+		let draining = step >= steps;
+		let linked = net.connected.contains(&(0, 1));
+		// ---- one action --------------------------------------------------------------------------------
+		if draining {
+			if !linked { net.reconnect(0, 1); net.trace.push(Obs::Event { node: 0, text: "RECONNECT".into() }); }
+			else if let Some(x) = (0..2).find(|x| !net.pending_updates(*x, c).is_empty()) { net.set_mode(x, false); let id = net.pending_updates(x, c)[0]; net.complete(x, c, id); }
+			else if let Some((i, j)) = net.any_queued() { net.deliver(i, j); }
+			else if skip_events.is_some() { skip_events = None; }
+			else { let mut moved = false; for i in 0..2 { if net.nodes[i].node.needs_pending_htlc_processing() { net.forward(i); moved = true; } let b = net.trace.len(); net.process_events(i); if net.trace.len() != b { moved = true; } }
+				if !moved { let cl: Vec<usize> = (0..net.pays.len()).filter(|p| net.claimable[net.pays[*p].to].iter().any(|c| c.0 == net.pays[*p].hash)).collect();
+					if let Some(p) = cl.first() { let to = net.pays[*p].to; let h = net.pays[*p].hash; net.claimable[to].retain(|c| c.0 != h); net.claim(*p); } else if step > steps + 4 { break; } } }
+		} else {
+			match rng.below(20) {
+				0 | 1 | 2 if linked => { let (a, b) = if rng.chance(1, 2) { (0, 1) } else { (1, 0) }; let _ = net.send(&[a, b], &[c], 1_000_000 + rng.below(2_000_000), 80); },
+				3 | 4 | 5 | 6 | 7 | 8 | 9 => { let q: Vec<(usize, usize)> = net.q.iter().filter(|(_, v)| !v.is_empty()).map(|(k, _)| *k).collect(); if !q.is_empty() { let (i, j) = *rng.pick(&q); net.deliver(i, j); } },
+				10 | 11 => { let i = rng.below(2) as usize; if net.nodes[i].node.needs_pending_htlc_processing() { net.forward(i); } if Some(i) != skip_events { net.process_events(i); } },
+				12 | 13 => { let cands: Vec<usize> = (0..net.pays.len()).filter(|p| net.claimable[net.pays[*p].to].iter().any(|c| c.0 == net.pays[*p].hash)).collect();
+					if !cands.is_empty() { let p = *rng.pick(&cands); let to = net.pays[p].to; let h = net.pays[p].hash; net.claimable[to].retain(|c| c.0 != h); if rng.chance(2, 3) { net.claim(p); } else { net.fail_back(p); } } },
+				14 => { let i = rng.below(2) as usize; if !net.in_progress[i] { net.set_mode(i, true); } },
+				15 => { if skip_events.is_none() { skip_events = Some(rng.below(2) as usize); } else if rng.chance(1, 2) { skip_events = None; } },
+				16 if rng.chance(1, 2) => { if linked { net.disconnect(0, 1); net.trace.push(Obs::Event { node: 0, text: "DISCONNECT".into() }); } else { net.reconnect(0, 1); net.trace.push(Obs::Event { node: 0, text: "RECONNECT".into() }); } },
+				_ => { let i = rng.below(2) as usize; let p = net.pending_updates(i, c); if !p.is_empty() { let id = *rng.pick(&p); net.complete(i, c, id); } },
+			}
+		}
+		if dead { pos = net.trace.len(); continue; }
+		// ---- the action as model ops -------------------------------------------------------------------
+		let after: Vec<(String, (Vec<(u64, u8)>, Vec<(u64, u8)>))> = (0..2).map(|x| (dump(&net, x).unwrap_or_default(), htlcs(&net, x))).collect();
+		if after.iter().any(|a| a.0.is_empty()) || !net.closed.is_empty() { dead = true; continue; }
+		for x in 0..2 {
+			let (d0, (out0, in0)) = &before[x]; let (d1, (out1, in1)) = &after[x];
+			let mut blocked_ids: Vec<u64> = blocked_of(d0).iter().map(|b| b.0).collect();
+			let n_blocked_before = blocked_ids.len();
+			if std::env::var("VERIF_GDBG").is_ok() { eprintln!("g{} n{} d0={} ids={:?}", sc, x, d0, blocked_ids); }
+			// what a revoke_and_ack processed in this action made irrevocable (independent of the monitor_pending_* fields)
+			let gone = |st: u8| out0.iter().filter(|(id, s)| *s == st && !out1.iter().any(|(i2, _)| i2 == id)).count();
+			let (n_ff, n_fl) = (gone(1), gone(2));
+			let n_adds = in0.iter().filter(|(id, s)| *s == 1 && in1.iter().any(|(i2, s2)| i2 == id && *s2 == 2)).count();
+			let op_of = |kinds: &str, handed: bool, ip: bool, unblocked: bool| -> Option<String> {
+				let has = |k: &str| kinds.split(|ch| ch == ',' || ch == '+').any(|w| w.starts_with(k));
+				let built = has("CounterpartyCommitment");
+				if unblocked { return Some(format!("gunblock {} {}", key(x), ip as u8)); }
+				if has("HolderCommitment") { Some(format!("gcs {} {} 0 {}", key(x), built as u8, ip as u8)) }
+				else if has("CommitmentSecret") { Some(format!("graa {} 0 {} {} {} 0 {} {} {}", key(x), built as u8, !handed as u8, n_adds, n_fl, n_ff, ip as u8)) }
+				else if has("PaymentPreimage") { Some(format!("gclaim {} {} {}", key(x), !built as u8, ip as u8)) }
+				else if built && kinds.split(',').count() == 1 { Some(format!("gsend {} {}", key(x), ip as u8)) }
+				else if has("ShutdownScript") && kinds.split(',').count() == 1 { Some(format!("gother {} {}", key(x), ip as u8)) }
+				else { None }
+			};
+			let (mut hand, mut msgs): (Vec<String>, Vec<String>) = (vec![], vec![]);
+			let mut n_unblocked = 0usize; let mut n_raa_ops = 0usize;
+			for o in &net.trace[pos..] {
+				match o {
+					Obs::Update { node, id, kinds, in_progress, .. } if *node == x => {
+						let ks = kinds.join(",");
+						let is_claim = kinds.first() == Some(&"PaymentPreimage");
+						let unb = blocked_ids.first() == Some(id) && !is_claim;
+						if unb { blocked_ids.remove(0); n_unblocked += 1; } else if is_claim { for b in blocked_ids.iter_mut() { *b += 1; } }
+						if kinds.iter().any(|k| *k == "CommitmentSecret") && !unb { n_raa_ops += 1; }
+						match op_of(&ks, true, *in_progress, unb) { Some(op) => rec.directive(&op), None => { dead = true; } }
+						hand.push(id.to_string());
+					},
+					Obs::Completed { node, id, .. } if *node == x => rec.directive(&format!("gdone {} {}", key(x), id)),
+					Obs::Msg { from, kind, .. } if *from == x && ["raa", "cs", "ready"].contains(kind) => msgs.push(kind.to_string()),
+					Obs::Event { text, .. } if text == "DISCONNECT" => rec.directive(&format!("gdisc {}", key(x))),
+					Obs::Delivered { to, kind: "reestablish", .. } if *to == x => {
+						// what the peer lost is read off the outcome (message seen, or the monitor_pending flag set); whether it is HELD or sent is the model's decision
+						let seg = &net.trace[pos..];
+						let sent = |k: &str| seg.iter().any(|o| matches!(o, Obs::Msg { from, kind, .. } if *from == x && *kind == k));
+						// (a flag set by a LATER update of the same action, e.g. the holding cell freed after the reestablish, is not the reestablish's)
+						let quiet = !seg.iter().any(|o| matches!(o, Obs::Update { node, .. } if *node == x));
+						if !quiet { dead = true; } // reestablish + a new update in ONE harness action: what the reestablish alone released cannot be read off the trace
+						// channel_ready is retransmitted only in state ChannelReady with both sides on the initial commitment number (case 2; not gated: KF-C09-1)
+						rec.directive(&format!("greest {} {} {} {}", key(x), (sent("raa") || (quiet && field(d1, "raa") == "1")) as u8, (sent("cs") || (quiet && field(d1, "cs") == "1")) as u8, if sent("ready") { 2 } else { 0 }));
+					},
+					_ => {},
+				}
+			}
+			// updates generated in this action but queued behind blocked ones (not handed): the tail of the blocked list
+			let bl1 = blocked_of(d1);
+			let n_new = (bl1.len() + n_unblocked).saturating_sub(n_blocked_before);
+			for (_, kinds) in bl1.iter().skip(bl1.len() - n_new.min(bl1.len())) {
+				if kinds.contains("CommitmentSecret") { n_raa_ops += 1; }
+				match op_of(kinds, false, false, false) { Some(op) => rec.directive(&op), None => { dead = true; } }
+			}
+			if n_raa_ops > 1 { dead = true; } // two revoke_and_acks in one action: the HTLC-list delta cannot be split
+			if dead { break; }
+			let bl: Vec<String> = bl1.iter().map(|b| b.0.to_string()).collect();
+			let j = |v: &Vec<String>| if v.is_empty() { "-".to_string() } else { v.join(",") };
+			let want = format!("paused={} raa={} cs={} rdy={} adds={} fw={} fl={} ff={} latest={} blocked={} disc={} hand={} msgs={}", field(d1, "paused"), field(d1, "raa"), field(d1, "cs"), field(d1, "rdy"),
+				field(d1, "adds"), field(d1, "fw"), field(d1, "fl"), field(d1, "ff"), field(d1, "latest"), j(&bl), field(d1, "disc"), j(&hand), j(&msgs));
+			let class = format!("gate:paused={}:blocked={}:held={}{}", field(d1, "paused"), bl.len().min(2), (field(d1, "adds") != "0" || field(d1, "fl") != "0" || field(d1, "ff") != "0") as u8, if msgs.is_empty() { "" } else { ":release" });
+			let nontrivial = !hand.is_empty() || !msgs.is_empty() || d0 != d1;
+			rec.case(&format!("gdump {}", key(x)), &want, &class, nontrivial);
+		}
+		before = after;
+		pos = net.trace.len();
+	}
+	if dead { *rec.classes.entry("gate:scenario-left-the-modelled-ops".into()).or_insert(0) += 1; }
+	std::mem::forget(net);
+}
+
+/// C01, cooperative close end to end: at the (quiescent) end of a scenario the two real nodes shut the channel down with random,
+/// independent fee estimates (and sometimes a target feerate); every closing_signed (fee, fee_range) and the broadcast closing
+/// transactions are recorded. Returns the `coopclose` op line for the `chan` model (which negotiates from ITS balances), the
+/// implementation's answer line, implementation-side oracle violations (independent of the model: each party is paid its pre-close
+/// balance less only the negotiated fee, both broadcast the same transaction, the fee lies in both advertised ranges) and a class.
+fn coop_close(net: &mut Net, c: usize, rng: &mut Rng) -> Option<(String, String, Vec<String>, String)> {
+	use lightning::chain::chaininterface::ConfirmationTarget;
+	use lightning::ln::verif_hooks as vh;
+	let mut viol = vec![];
+	let cid = net.chans[c].2;
+	let ids = [net.ids[0], net.ids[1]];
+	let ch: Vec<_> = (0..2).map(|i| net.nodes[i].node.list_channels().into_iter().find(|d| d.channel_id == cid)).collect();
+	let (ch0, ch1) = (ch[0].clone()?, ch[1].clone()?);
+	if !(ch0.is_usable && ch1.is_usable) { return None; }
+	if [&ch0, &ch1].iter().any(|d| !d.pending_inbound_htlcs.is_empty() || !d.pending_outbound_htlcs.is_empty()) { return None; }
+	if (0..2).any(|i| !net.pending_updates(i, c).is_empty()) || net.any_queued().is_some() { return None; }
+	let bal = [vh::channel_value_to_self_msat(net.nodes[0].node, &ids[1], &cid)?, vh::channel_value_to_self_msat(net.nodes[1].node, &ids[0], &cid)?];
+	let chan_sat = ch0.channel_value_satoshis;
+	let funder = if ch0.is_outbound { 0 } else { 1 };
+	let fundee = 1 - funder;
+	let dets = [ch0.clone(), ch1.clone()];
+	let funding = ch0.funding_txo?.into_bitcoin_outpoint();
+	// independent fee environments
+	let mut est = [0u32; 2];
+	for i in 0..2 {
+		est[i] = match rng.below(5) { 0 => 253, 1 => 253 + rng.below(600) as u32, 2 => 500 + rng.below(3000) as u32, 3 => rng.below(253) as u32, _ => if i == 0 { 1000 } else { est[0] } };
+		let normal = if rng.chance(1, 2) { est[i] } else { est[i] + rng.below(4000) as u32 };
+		let mut ov = net.nodes[i].fee_estimator.target_override.lock().unwrap();
+		ov.insert(ConfirmationTarget::ChannelCloseMinimum, est[i]);
+		ov.insert(ConfirmationTarget::NonAnchorChannelFee, normal);
+	}
+	let initiator = rng.below(2) as usize;
+	let target: Option<u32> = if rng.chance(1, 3) { Some(253 + rng.below(6000) as u32) } else { None };
+	// each node's own fee range, from the real calculate_closing_fee_limits on its own current state
+	let mut lim = [(0u64, 0u64); 2];
+	for i in 0..2 {
+		let d = &dets[i];
+		let fc = d.config.map(|c| c.force_close_avoidance_max_fee_satoshis).unwrap_or(1000);
+		let t = if i == initiator { target } else { None };
+		let r = vh::channel_closing_probe(net.nodes[i].node, &ids[1 - i], &cid, bal[i], chan_sat, 354, d.is_outbound, 0, false, t, d.feerate_sat_per_1000_weight.unwrap_or(253), fc)?;
+		lim[i] = r.1.ok()?;
+	}
+	let before_errs = net.trace.iter().filter(|o| matches!(o, Obs::ProtoError { .. })).count();
+	let r = if target.is_some() { net.nodes[initiator].node.close_channel_with_feerate_and_script(&cid, &ids[1 - initiator], target, None) } else { net.nodes[initiator].node.close_channel(&cid, &ids[1 - initiator]) };
+	if r.is_err() { for i in 0..2 { net.nodes[i].fee_estimator.target_override.lock().unwrap().clear(); } return None; }
+	let mut msgs: Vec<(usize, u64, Option<(u64, u64)>)> = vec![];
+	let mut scripts: [Option<bitcoin::ScriptBuf>; 2] = [None, None];
+	for _ in 0..60 {
+		net.pump_all();
+		for i in 0..2 { for id in net.pending_updates(i, c) { net.complete(i, c, id); } }
+		let (i, j) = match net.any_queued() { Some(x) => x, None => { for i in 0..2 { net.process_events(i); } if net.any_queued().is_none() { break; } continue; } };
+		match net.q.get(&(i, j)).and_then(|q| q.front()) {
+			Some(Wire::ClosingSigned(m)) => msgs.push((i, m.fee_satoshis, m.fee_range.as_ref().map(|r| (r.min_fee_satoshis, r.max_fee_satoshis)))),
+			Some(Wire::Shutdown(m)) => scripts[i] = Some(m.scriptpubkey.clone()),
+			_ => {},
+		}
+		net.deliver(i, j);
+	}
+	for i in 0..2 { net.process_events(i); }
+	for i in 0..2 { net.nodes[i].fee_estimator.target_override.lock().unwrap().clear(); }
+	let errs: Vec<String> = net.trace.iter().filter_map(|o| if let Obs::ProtoError { text, .. } = o { Some(text.clone()) } else { None }).skip(before_errs).collect();
+	// the closing transaction each node broadcast (spends the funding output, no HTLC/commitment structure: locktime 0, sequence max)
+	let mut bcast: [Option<(u64, u64, u64, String)>; 2] = [None, None]; // (fee, to node 0, to node 1, txid)
+	for i in 0..2 {
+		let txs = net.nodes[i].tx_broadcaster.txn_broadcasted.lock().unwrap().clone();
+		if let Some(tx) = txs.iter().rev().find(|t| t.input.len() == 1 && t.input[0].previous_output == funding && t.input[0].sequence == bitcoin::Sequence::MAX) {
+			let val = |k: usize| -> u64 { scripts[k].as_ref().map(|s| tx.output.iter().filter(|o| &o.script_pubkey == s).map(|o| o.value.to_sat()).sum()).unwrap_or(0) };
+			let total: u64 = tx.output.iter().map(|o| o.value.to_sat()).sum();
+			if val(0) + val(1) != total { viol.push(format!("cooperative close: the closing transaction of node {} pays {} sat to scripts that are neither party's shutdown script", i, total - val(0) - val(1))); }
+			bcast[i] = Some((chan_sat - total, val(0), val(1), tx.compute_txid().to_string()));
+		}
+	}
+	// ---- implementation-side oracle ---------------------------------------------------------------------------------------
+	let neg_fee = msgs.last().map(|m| m.1);
+	match (&bcast[0], &bcast[1]) {
+		(Some(a), Some(b)) => {
+			if a.3 != b.3 { viol.push(format!("cooperative close: the two nodes broadcast DIFFERENT closing transactions ({} vs {})", a.3, b.3)); }
+			let f = neg_fee.unwrap_or(0);
+			let cut = |x: u64| if x <= 354 { 0 } else { x };
+			let mut want = [0u64; 2];
+			want[funder] = cut((bal[funder] / 1000).saturating_sub(f));
+			want[fundee] = cut(bal[fundee] / 1000);
+			if bal[funder] / 1000 < f { viol.push(format!("cooperative close: negotiated fee {} exceeds the funder's balance {} msat", f, bal[funder])); }
+			if [a.1, a.2] != want { viol.push(format!("cooperative close: the closing transaction pays ({}, {}) sat to (node 0, node 1); pre-close balances ({}, {}) msat, funder = node {}, negotiated fee {}: each party must get its balance less only the negotiated fee, i.e. ({}, {})", a.1, a.2, bal[0], bal[1], funder, f, want[0], want[1])); }
+			let dropped = (if want[0] == 0 { if funder == 0 { (bal[0] / 1000).saturating_sub(f) } else { bal[0] / 1000 } } else { 0 }) + (if want[1] == 0 { if funder == 1 { (bal[1] / 1000).saturating_sub(f) } else { bal[1] / 1000 } } else { 0 });
+			let rem = if bal[0] % 1000 == 0 { 0 } else { 1 };
+			if a.0 != f + dropped + rem { viol.push(format!("cooperative close: the transaction's fee {} is not the negotiated fee {} + dust outputs {} + sub-satoshi remainder {}", a.0, f, dropped, rem)); }
+			for (i, fee, range) in &msgs { if let Some((lo, hi)) = range { if fee < lo && !(*i == fundee && hi < lo) { viol.push(format!("cooperative close: node {} proposed fee {} below its own advertised minimum {}", i, fee, lo)); } if fee > hi && !(*i == fundee && hi < lo) { viol.push(format!("cooperative close: node {} proposed fee {} above its own advertised maximum {}", i, fee, hi)); } } }
+			if f < lim[funder].0 || f > lim[funder].1 || f > lim[fundee].1 { viol.push(format!("cooperative close: negotiated fee {} outside the funder's range {:?} or above the fundee's maximum {}", f, lim[funder], lim[fundee].1)); }
+			if f < lim[fundee].0 { viol.push(format!("cooperative close: the fundee signed and broadcast a closing transaction at fee {} below its own minimum {} (funder range {:?}, fundee range {:?}, funder balance {} msat)", f, lim[fundee].0, lim[funder], lim[fundee], bal[funder])); }
+		},
+		(None, None) => { if errs.is_empty() { viol.push(format!("cooperative close: negotiation ended without a broadcast and without an error ({} closing_signed exchanged)", msgs.len())); } },
+		_ => viol.push(format!("cooperative close: only one node broadcast a closing transaction (node 0: {}, node 1: {}); errors: {:?}", bcast[0].is_some(), bcast[1].is_some(), errs.iter().map(|e| e.chars().take(100).collect::<String>()).collect::<Vec<_>>())),
+	}
+	let ms: Vec<String> = msgs.iter().map(|(_, f, r)| format!("{}:{}", f, r.map(|(a, b)| format!("{}:{}", a, b)).unwrap_or("-".into()))).collect();
+	let sh = |b: &Option<(u64, u64, u64, String)>| b.as_ref().map(|x| format!("{}/{}/{}", neg_fee.unwrap_or(x.0), x.1, x.2)).unwrap_or("-".into());
+	let err = if bcast[0].is_some() || bcast[1].is_some() || errs.is_empty() { "-" } else if errs.iter().any(|e| e.contains("Warning") || e.contains("warning")) { "warn" } else { "close" };
+	let op = format!("coopclose {} {} {} {} {} {} {}", chan_sat, 354, 354, lim[0].0, lim[0].1, lim[1].0, lim[1].1);
+	let ans = format!("msgs={} a={} b={} err={}", ms.join(","), sh(&bcast[0]), sh(&bcast[1]), err);
+	let class = format!("coopclose:{}:{}msgs{}", if bcast[0].is_some() { "done" } else { err }, msgs.len(), if bcast[0].as_ref().map(|b| b.1 == 0 || b.2 == 0).unwrap_or(false) { ":dust-output" } else { "" });
+	Some((op, ans, viol, class))
+}
+
 fn nm(i: usize) -> &'static str { if i == 0 { "a" } else { "b" } }
 
 fn main() {
@@ -592,20 +891,36 @@ fn main() {
 			match guarded(std::panic::AssertUnwindSafe(|| probe_jump_over_held(k))) { Ok(Some((_, Some(m)))) => rec.oracle_fail(m), Ok(Some((held, None))) => { *rec.classes.entry(format!("probe:jump-over-held:ok:held={}", held)).or_insert(0) += 1; }, Ok(None) => rec.oracle_fail(format!("jump-over-held probe ({} extra) could not be set up", k)), Err(p) => rec.oracle_fail(format!("preimage update ahead of held monitor updates ({} extra): panicked: {}", k, p.chars().take(200).collect::<String>())) }
 		}
 		for m in probe_open_orders() { rec.oracle_fail(m); }
+		for local in [false, true] { for extra in 0..2usize { for inflight in [false, true] {
+			match guarded(std::panic::AssertUnwindSafe(|| probe_shutdown_while_held(local, extra, inflight))) { Ok(Some((_, Some(m)))) => rec.oracle_fail(m), Ok(Some((held, None))) => { *rec.classes.entry(if held == u64::MAX { "probe:shutdown-while-held:close_channel-refused".to_string() } else { format!("probe:shutdown-while-held:ok:held={}", held) }).or_insert(0) += 1; }, Ok(None) => rec.oracle_fail(format!("shutdown-while-held probe (local={}, extra={}) could not be set up", local, extra)), Err(p) => rec.oracle_fail(format!("ShutdownScript update while monitor updates are held ({} shutdown, {} extra, persister {}): panicked: {}", if local { "local" } else { "peer-initiated" }, extra, if inflight { "InProgress" } else { "Completed" }, p.chars().take(200).collect::<String>())) }
+		} } }
+		let n_gate = if args.thorough { 300 } else { 30 } * args.scale as usize;
+		let mut grng = Rng::new(args.seed ^ 0x9a7e);
+		for g in 0..n_gate {
+			let mut sub = Rng::new(grng.next());
+			let steps = if args.thorough { 60 + sub.below(120) as usize } else { 40 + sub.below(60) as usize };
+			if let Err(p) = guarded(std::panic::AssertUnwindSafe(|| gate_scenario(&mut sub, g, steps, &mut rec))) { rec.oracle_fail(format!("gate scenario {} (seed {}) panicked: {}", g, args.seed, p.chars().take(240).collect::<String>())); }
+		}
 		match guarded(std::panic::AssertUnwindSafe(probe_channel_ready_leak)) { Ok(Some(m)) => rec.oracle_fail(m), Ok(None) => { rec.notes.insert("kf_c09_1".into(), "probe did not reproduce KF-C09-1 on this tree".into()); }, Err(p) => rec.oracle_fail(format!("channel_ready probe panicked: {}", p.chars().take(300).collect::<String>())) }
 	}
 	// the deterministic replay of KF-C01-1 belongs to property C01 only
 	if args.model == "chan" && std::env::var("VERIF_PROPERTY").map(|p| p == "C01").unwrap_or(true) {
 		match guarded(std::panic::AssertUnwindSafe(probe_fundee_limit)) { Ok(Some(m)) => rec.oracle_fail(m), Ok(None) => { rec.notes.insert("kf_c01_1".into(), "probe did not reproduce KF-C01-1 on this tree".into()); }, Err(p) => rec.oracle_fail(format!("fundee-limit probe panicked: {}", p.chars().take(200).collect::<String>())) }		match guarded(std::panic::AssertUnwindSafe(probe_holding_cell_claim_then_add)) { Ok(Some(m)) => rec.oracle_fail(m), Ok(None) => { rec.notes.insert("kf_c01_2".into(), "probe did not reproduce KF-C01-2 on this tree".into()); }, Err(p) => rec.oracle_fail(format!("holding-cell probe panicked: {}", p.chars().take(200).collect::<String>())) }
 	}
-	for sc in 0..n_scen {
-		let steps = if args.thorough { 60 + rng.below(200) as usize } else { 40 + rng.below(80) as usize };
+	// C01 only: additional SHORT scenarios (a few operations, then the cooperative close), half of them with a fundee balance
+	// around the closing dust limit
+	let c01_chan = args.model == "chan" && std::env::var("VERIF_PROPERTY").map(|p| p == "C01").unwrap_or(true);
+	let n_short = if c01_chan { (if args.thorough { 600 } else { 60 }) * args.scale as usize } else { 0 };
+	for sc in 0..n_scen + n_short {
+		let short = sc >= n_scen;
+		let steps = if short { rng.below(24) as usize } else if args.thorough { 60 + rng.below(200) as usize } else { 40 + rng.below(80) as usize };
+		let tiny_push = short && sc % 2 == 0;
 		let async_persist = sc % 2 == 1;
 		let with_disc = sc % 3 == 2 || sc % 4 == 1;
 		// fee scenarios (update_fee in flight, asymmetric reserves): implementation-side oracles only, the Lean models have no fee updates
 		let with_fee = sc % 6 == 4 || sc % 6 == 1;
 		let mut sub = Rng::new(rng.next());
-		let net = match guarded(std::panic::AssertUnwindSafe(|| scenario(&mut sub, steps, async_persist, with_disc, with_fee))) {
+		let mut net = match guarded(std::panic::AssertUnwindSafe(|| scenario(&mut sub, steps, async_persist, with_disc, with_fee, tiny_push))) {
 			// the send-limit exactness oracles state C01's last sentence: they are reported under C01 only
 			Ok((n, viol)) => { let c01 = std::env::var("VERIF_PROPERTY").map(|p| p == "C01").unwrap_or(true); for v in viol { if c01 || !v.contains("limit") { rec.oracle_fail(format!("scenario {}: {}", sc, v)); } } n },
 			Err(p) => { rec.oracle_fail(format!("scenario {} (seed {}, async={}) panicked: {}", sc, args.seed, async_persist, p.chars().take(200).collect::<String>())); continue; },
@@ -707,11 +1022,35 @@ fn main() {
 						rec.case(&format!("recv {}", nm(*to)), &format!("ok {} {}", k2, if *errors == 0 { "agree" } else { "DISAGREE" }), &format!("recv:{}", k2), true);
 					},
 					Obs::Balance { node, chan: 0, value_to_self_msat } => rec.case(&format!("bal {}", nm(*node)), &value_to_self_msat.to_string(), "bal", false),
+					// C01: the inputs and the result of the real send-side check against the model's (only while the holding cell holds no add:
+					// the model has no holding cell; the adds waiting there are checked when they leave it, see `commit`)
+					Obs::Event { node, text } if text.starts_with("STATS ") && c01_chan => {
+						let parts: Vec<&str> = text[6..].split(" | ").collect();
+						let f0: Vec<&str> = parts[0].split(' ').collect();
+						if f0[2] == "0" {
+							rec.case(&format!("stats {}", nm(*node)), &format!("v={} htlcs={}", f0[0], f0[1]), "stats", false);
+							if !with_fee {
+								rec.directive(&format!("sendcfg {} {}", nm(*node), parts[1]));
+								let lm: Vec<&str> = parts[2].split(' ').collect();
+								rec.case(&format!("lim {}", nm(*node)), &format!("{} {}", lm[0], lm[1]), if lm[0] == "0" { "lim:zero" } else { "lim:pos" }, false);
+							}
+						} else { *rec.classes.entry("stats:skipped-holding-cell".into()).or_insert(0) += 1; }
+					},
 					// disconnection (marker pushed by scenario()): everything queued is lost, both nodes pause the channel
 					Obs::Event { node: 0, text } if text == "DISCONNECT" => rec.case("disconnect", "ok", "disconnect", true),
 					// a node processes the peer's channel_reestablish (its retransmissions follow as release / raa ops)
 					Obs::Delivered { to, kind: "reestablish", chan: 0, errors, .. } => rec.case(&format!("reest {}", nm(*to)), if *errors == 0 { "ok" } else { "ERROR" }, "reest", true),
 					_ => {},
+				}
+			}
+			// C01: shut the channel down cooperatively at this quiescent point (real nodes, random independent fee estimates)
+			let c01 = std::env::var("VERIF_PROPERTY").map(|p| p == "C01").unwrap_or(true);
+			let clean = net.closed.is_empty() && !net.trace.iter().any(|o| matches!(o, Obs::ProtoError { .. }));
+			if c01 && clean {
+				match guarded(std::panic::AssertUnwindSafe(|| coop_close(&mut net, 0, &mut sub))) {
+					Ok(Some((op, ans, viol, class))) => { for v in viol { rec.oracle_fail(format!("scenario {}: {}", sc, v)); } rec.case(&op, &ans, &class, true); },
+					Ok(None) => { *rec.classes.entry("coopclose:skipped".into()).or_insert(0) += 1; },
+					Err(p) => rec.oracle_fail(format!("scenario {}: cooperative close panicked: {}", sc, p.chars().take(200).collect::<String>())),
 				}
 			}
 		}
